@@ -24,6 +24,30 @@ func (p *P) fn(rule, name string) *ssa.Function {
 	return f
 }
 
+// fnWith resolves the function — parent itself or any closure nested in it —
+// that contains a call to callee. Closures are found by content, not by index.
+func (p *P) fnWith(rule, parent, callee string) *ssa.Function {
+	f := p.fn(rule, parent)
+	if f == nil {
+		return nil
+	}
+	var found *ssa.Function
+	var walk func(g *ssa.Function)
+	walk = func(g *ssa.Function) {
+		if found == nil && len(callsTo(g, false, callee)) > 0 {
+			found = g
+		}
+		for _, a := range g.AnonFuncs {
+			walk(a)
+		}
+	}
+	walk(f)
+	if found == nil {
+		p.r.Undecided(rule, "anchor "+parent+" ∋ "+callee, "no function or closure in "+parent+" calls "+callee)
+	}
+	return found
+}
+
 // ---------- value matchers ----------
 
 // VM matches SSA values of one function and yields the abstract value to inject.
